@@ -12,3 +12,16 @@ open IrVerif.Journal
 #print axioms C20_transparent_needs_ProcNone
 #print axioms C20_entries
 #print axioms C20_entries_active
+#print axioms C20_slot_table
+#print axioms C20_wrapper_order
+#print axioms C20_no_strong_ref
+#print axioms C20_no_strong_ref_record
+#print axioms C20_entry_core
+#print axioms C20_no_strong_ref_run
+#print axioms C20_exit_fault
+#print axioms C20_exit_fault_leaves_wrapped
+#print axioms C20_exit_retry
+#print axioms C20_restore_generator_close
+#print axioms C20_improper_nesting_not_restored
+#print axioms C20_kernel_plain
+#print axioms C20_transparent_kernel
